@@ -487,12 +487,16 @@ def judge(impl, ops):
             stats["e4xx"] += 1
         if tok.startswith("L[") and len(tok) > 3:
             stats["listed"] += 1
-        if not verdict and is_write and tok.startswith("E4"):
+        if tok.startswith("X:"):
+            stats["exc"] = stats.get("exc", 0) + 1
+        if not verdict and is_write and (tok.startswith("E4") or tok.startswith("X:")):
+            # an unsuccessful write -- refused with 4.xx, or failed with an exception (answered 5.00) -- is not
+            # "the latest successful write" of anything: the directory must be what it was
             after = (impl.dump(), impl.snapshot())
             if after != before:
                 verdict = (f"op {idx} {op_token(op)} was answered {tok} but changed the directory: "
                            f"{before[0]} -> {after[0]}")
-                vkey = "4xx-changed-state:" + op[0]
+                vkey = ("4xx-changed-state:" if tok.startswith("E4") else "failed-write-changed-state:") + op[0]
         v = ref.observe(op, tok)
         if op[0] == "T" and len(ref.regs) < live_before:
             stats["expired"] += 1
